@@ -47,6 +47,11 @@ class World:
                 if i != 7:
                     body += bytes([0xC0 | 0x02, 0x34, 0x00, 0x03, 0xAA, 0xBB, 0xCC])
                 s.raw = bytes([0x88, 0x00, len(body) >> 8, len(body) & 0xff]) + bytes(body)
+            if i in (0, 5):
+                # element order of older aggregators: authentication / publication record and calendar chain before the aggregation chains
+                top = R.expand(R.read_tlv(s.raw)[0])
+                ks = top.kids()
+                s.raw = R.T(R.TAG_SIG, [k for k in ks if k.tag in (R.TAG_CALAUTH, R.TAG_PUBREC)] + [k for k in ks if k.tag == R.TAG_CAL] + [k for k in ks if k.tag not in (R.TAG_CALAUTH, R.TAG_PUBREC, R.TAG_CAL)]).enc()
             s.data = data
             s.local = local
             s.docimp = s.rfc.input_hash if s.rfc is not None else s.doc
@@ -122,7 +127,7 @@ def gen_op(rng, w, live):
     if k < 0.88:
         return ('free', i)
     if k < 0.9:
-        return ('loglevel', rng.choice([0, 5]))
+        return ('loglevel', rng.choice([0, 5, 5]), rng.choice([0, 0, 0x201]))      # level NONE / DEBUG; the logger callback succeeds or reports an I/O error
     if k < 0.95:
         return ('verifydoc', i, rng.choice(['same', 'other']))
     return ('info', i)
@@ -312,7 +317,9 @@ class Hist:
             c('sigfree %d' % op[1])
             self.live.pop(op[1], None)
         elif kind == 'loglevel':
-            c('log 0 %d' % op[1])
+            c('log 0 %d %d' % (op[1], op[2] if len(op) > 2 else 0))
+            if len(op) > 2 and op[2] and op[1]:
+                self.r.count('logger_callback_reports_errors')
         elif kind == 'verifydoc':
             _, slot, which = op
             raw, si = self.live[slot]
